@@ -162,6 +162,7 @@ def renderViol : Viol → String
   | .starved u n => s!"starved user=u{u} cycle={n}: complete command waiting, user connected, not served"
   | .fifo u t => s!"fifo user=u{u} text={enc t}: executed command is not the oldest pending input"
   | .idleWait n u => s!"idle-wait cycle={n} user=u{u}: backend blocks in poll although a complete command is buffered"
+  | .overtaken u v n => s!"overtaken user=u{u} waiting=u{v} cycle={n}: served again while another user with a complete command still waits"
   | .efun t x => s!"efun user=u{t} text={enc x}: command() was not executed at once"
   | .outside u => s!"outside user=u{u}: buffered command executed outside a backend cycle"
   | .crash w => s!"crash {w}"
